@@ -1282,6 +1282,10 @@ func (o *Map) IndexSet(index, value Object) (err error) {
 		err = ErrInvalidIndexType
 		return
 	}
+	if len(strIdx) > MaxStringLen {
+		// the key becomes a string value again when the map is iterated
+		return ErrStringLimit
+	}
 	o.Value[strIdx] = value
 	return nil
 }
